@@ -35,7 +35,9 @@ CHECKS = {
              "loop over the accessed tensor's own rank, and 1-2 levels of shape partitioning with follow(); every case is executed on the "
              "reference model on a drawn sparse input and on an all-dense input and compared with dense evaluation (missing or duplicated "
              "contributions change a value because all values are positive); every created output coordinate must be integral and inside "
-             "the extent. Five root causes found on the unchanged tree are listed as known findings with narrow excluded classes; two were fixed.",
+             "the extent. Five root causes found on the unchanged tree are listed as known findings with narrow excluded classes; two were fixed. "
+             "Inside the class of known finding F-C04-5 (two partition levels with halo: double counting) a one-sided oracle still runs: with "
+             "strictly positive inputs no output element may be smaller than its dense evaluation.",
         design="4/C04"),
     "C05": dict(
         technique="property-based testing (Hypothesis): generated cascades of 2-4 Einsums with per-Einsum mappings, executed whole on a reference model vs chained dense evaluation; differential text comparison of every Einsum compiled after every prefix vs compiled alone (temporaries renumbered)",
@@ -75,7 +77,10 @@ CHECKS = {
         text="Generated-input search over specifications of every family and over linear extensions of the dependence graph that no hash seed "
              "happens to produce: the hoisting pass is run on drawn tie-breaks and on networkx's own order, and the resulting statement "
              "sequence must be a permutation of the graph's nodes in which every edge goes forward, loops nest as brackets with the "
-             "update innermost, and nothing sits above a loop it transitively depends on (shipped accelerator specs also with metrics nodes).",
+             "update innermost, and nothing sits above a loop it transitively depends on (shipped accelerator specs also with metrics nodes). "
+             "Dependences the graph may have forgotten are checked independently: a statement naming rank R of tensor T follows the "
+             "partitioning statement that creates R (derived from the partitioning alone), and whole programs (plain and metrics mode) "
+             "compiled under drawn linear extensions must be closed Python and, where executable, compute the dense result.",
         design="4/C10",
         note="Trusted base: the graph returned by FlowGraph.get_graph() as the dependence relation (main part); for the observable part the reference model, dense evaluator and definite-assignment analysis; networkx.descendants, Hypothesis."),
     "C16": dict(
@@ -114,8 +119,10 @@ CHECKS = {
         text="Generated-input search over a constructed family of architectures (1-3 levels, DRAM, buffet/cache, compute, the three "
              "intersector types incl. leader-follower with any co-iterated leader, sequencer), bindings (lazy/eager, evict-on) and formats "
              "for generated product Einsums and cascades, plus the shipped accelerator specifications: the metrics-mode program must "
-             "compute exactly the tensors of the plain-mode program and of dense evaluation. Found and fixed the payload-order defect of "
-             "leader-follower intersection (8641d3c).",
+             "compute exactly the tensors of the plain-mode program and of dense evaluation, and must leave every user-supplied input variable "
+             "holding what was supplied (merger swizzles of flattened tensors). Found and fixed the payload-order defect of leader-follower "
+             "intersection (8641d3c) and two eager-binding defects on flattened / discordant tensors (c55612e, 125b8da); one known finding "
+             "(F-C11-3).",
         design="4/C11"),
     "C12": dict(
         technique="property-based testing (Hypothesis): generated Einsums/mappings with constructed architectures/bindings/formats; oracle = static cross-reference of the emitted metrics text (registrations, fiber traces, filter steps, consumed files, intersector objects) in program order per Einsum section",
@@ -140,7 +147,8 @@ CHECKS = {
              "instance counts NAME[0..N]) and the shipped accelerator specifications: the dump is executed exactly (Fractions over distinct "
              "primes); each component time must be count/(rate x instances) with the architecture read independently, and the emitted "
              "metrics[\"time\"] expression must equal the sum over blocks of the bottleneck component as a function - every timed entry "
-             "is in turn made dominant, so a missing, duplicated or misplaced entry is seen even when it is not the bottleneck.",
+             "is in turn made dominant, so a missing, duplicated or misplaced entry is seen even when it is not the bottleneck. An intersector's "
+             "operation count must be the sum of the attempts on all ranks it is bound to.",
         design="4/C14",
         note="Trusted base: vf/archread.py, the per-class count rules in vf/checks/c14.py (taken from the property statement), the stand-ins of vf/standins.py, Hypothesis."),
     "C15": dict(
